@@ -37,7 +37,7 @@ TRUSTED_BASE = [
 ASSUMPTIONS = [
     "free is only given blocks that are outstanding, each once (the harness ownership list guarantees it)",
     "sowr pool: one allocator thread, one freer thread, frees respect allocation order (free b releases b and everything allocated before it)",
-    "ring pool: alloc callers are serialised (one allocating thread) or use threadsafe_alloc; scenarios never need more than capacity blocks at once (alloc spins otherwise)",
+    "ring pool: alloc callers are serialised (one allocating thread) or use threadsafe_alloc; an allocation with every block owned spins until a free happens, so scenarios guarantee (allocs - capacity <= blocking frees <= allocs) that the wait ends under every fair schedule",
     "ts pool theorems at full strength need a single allocator thread; with >= 2 allocator threads see the known finding",
 ]
 EVIDENCE_NOTES = [
@@ -200,6 +200,32 @@ def generate(rng, tier):
         scripts = [_script(rng, rng.range(4, 16), 70, "x", quota=rc)]
         scripts += [",".join("f%d" % rng.below(4) for _ in range(rng.range(1, 6))) for _ in range(nf)]
         cases.append(_mk("ringU-%d" % i, "ring %d 0" % cap, scripts, _sched(rng)))
+    # ring pool, the all-owned state: pure allocating thread(s) that allocate more than the capacity while
+    # consumers with BLOCKING frees (k >= 100: wait until there is a block to free) release blocks only
+    # afterwards; the allocation that finds every block owned must keep scanning until a free has happened.
+    # Termination under every fair schedule: allocs - capacity <= frees <= allocs.
+    for i in range(n_each):
+        locked = i % 2
+        cap = rng.range(1, 8) if not locked else rng.range(2, 8)
+        rc = 2
+        while rc < cap:
+            rc *= 2
+        if rc > 4 and rng.chance(2, 3):
+            cap, rc = rng.choice([(1, 2), (2, 2), (3, 4), (4, 4)])
+        na = rng.range(2, 3) if locked else 1
+        allocs = [rng.range(1, rc + 2) for _ in range(na)]
+        n_all = sum(allocs)
+        if n_all <= rc:
+            allocs[0] += rc + 1 - n_all
+            n_all = rc + 1
+        m = rng.range(n_all - rc, n_all)
+        nc = rng.range(1, 2)
+        per = [0] * nc
+        for _ in range(m):
+            per[rng.below(nc)] += 1
+        scripts = [",".join(["a"] * k) for k in allocs]
+        scripts += [",".join("f%d" % (100 + rng.below(4)) for _ in range(k)) for k in per]
+        cases.append(_mk("ringW%s-%d" % ("L" if locked else "U", i), "ring %d %d" % (cap, locked), scripts, _sched(rng)))
     # the model-derived ABA schedule, on every capacity that rounds to 4 and with the single-allocator control
     cases.append(_mk("ts-aba-model-schedule", "ts 4", ABA_SCRIPTS, ABA_SCHED))
     cases.append(_mk("ts-aba-model-schedule-cap3", "ts 3", ABA_SCRIPTS, ABA_SCHED))
@@ -492,7 +518,17 @@ def tally(dist, case, lines):
     k = pool[0] + ("-multi-alloc" if pool[0] == "ts" and n_allocators(case) >= 2 else "")
     dist[k] = dist.get(k, 0) + 1
     dist["cap=%d" % _round_cap(pool[0], int(pool[1]))] = dist.get("cap=%d" % _round_cap(pool[0], int(pool[1])), 0) + 1
+    run1 = {}
+    rcap = _round_cap(pool[0], int(pool[1]))
     for ln in lines:
+        if pool[0] == "ring":
+            w = ln.split()
+            if len(w) > 5 and w[0] == "E" and w[2] == "load" and w[3].startswith("u"):
+                run1[w[1]] = run1.get(w[1], 0) + 1 if w[5] == "1" else 0
+                if run1[w[1]] == rcap:
+                    dist["ring_alloc_scanned_full_lap_all_owned"] = dist.get("ring_alloc_scanned_full_lap_all_owned", 0) + 1
+            elif len(w) > 2 and w[0] == "R" and w[2] == "a":
+                run1[w[1]] = 0
         if ln.startswith("E "):
             dist["events"] = dist.get("events", 0) + 1
             if " casw alloc " in ln:
